@@ -49,6 +49,7 @@ type concWorker struct {
 	cache    []virtual.PrepopulatedDirectory // possibly stale container references
 	gid      string
 	done     atomic.Bool
+	panicked atomic.Bool
 }
 
 // container returns a container: a fresh lookup (creating it if it is
@@ -218,11 +219,19 @@ func (w *concWorker) step() {
 func concWorkerMain(w *concWorker, ops int, started *sync.WaitGroup) {
 	w.gid = currentGoroutineID()
 	started.Done()
+	defer func() {
+		// A panic of the real code ends this worker; it is logged and
+		// is not a lock balance failure by itself.
+		if r := recover(); r != nil {
+			w.e.tr.Emit(common.Ev{"ev": "panic", "obj": "dir", "call": "concurrent-calls", "variant": "", "msg": fmt.Sprint(r), "locks_free": true, "busy": []string{}})
+			w.panicked.Store(true)
+		}
+		w.done.Store(true)
+	}()
 	for i := 0; i < ops; i++ {
 		w.step()
 		w.progress.Add(1)
 	}
-	w.done.Store(true)
 }
 
 // parkedInMutex returns how many of the unfinished workers are parked
